@@ -74,7 +74,9 @@ def harness_specs(tier):
             dict(name='h_c08s1', src='h_c08s.cpp', flavour='fast', extra=['-DC08S_PART=1']),
             dict(name='h_c08s2', src='h_c08s.cpp', flavour='fast', extra=['-DC08S_PART=2']),
             # asserts on: a fold over no element must not trip anything (repaired defect reduce.empty-fold)
-            dict(name='h_c08r_dbg', src='h_c08r.cpp', flavour='dbg')]
+            dict(name='h_c08r_dbg', src='h_c08r.cpp', flavour='dbg'),
+            # narrow element types with a wider result dtype: the fold is carried out in the dtype
+            dict(name='h_c08e', src='h_c08e.cpp', flavour='fast')]
 
 
 # ------------------------------------------------------------------------------------------------
@@ -756,8 +758,40 @@ def gen_witnesses():
                oracle='ok shape=[] data=0.0', cmp=close_cmp(1e-12, 1e-12), tags=['witness', 'empty-diagonal'])
 
 
+def gen_narrow(tier, rng):
+    """cumsum / cumprod / sum / prod of int8 / uint8 / int16 data with a wider result dtype: the running value leaves the
+    element range, so an accumulator held in the element type wraps (seeded change C08-2).  Reference: NumPy with dtype=."""
+    NPT = {'i8': np.int8, 'u8': np.uint8, 'i16': np.int16}
+    NPD = {'i32': np.int32, 'i64': np.int64, 'f64': np.float64}
+    lim = {'i8': (-128, 127), 'u8': (0, 255), 'i16': (-32768, 32767)}
+    shp = [[3], [5], [2, 3], [3, 2], [2, 2, 3]] if tier == 'quick' else [[3], [5], [7], [2, 3], [3, 2], [4, 3], [2, 2, 3], [3, 2, 2]]
+    for et in ('i8', 'u8', 'i16'):
+        lo, hi = lim[et]
+        for s in shp:
+            n = prod(s)
+            for variant in range(2 if tier == 'quick' else 4):
+                # values close to the limits of the element type (sums leave the range after two terms), and small factors
+                big = [rng.choice([hi, hi - 1, hi // 2 + 1, lo, lo // 2] if lo < 0 else [hi, hi - 1, hi // 2 + 1, hi // 3]) for _ in range(n)]
+                small = [rng.choice([2, 3, 5, 7, -2, -3] if lo < 0 else [2, 3, 5, 7]) * (10 if et != 'i16' else 60) for _ in range(n)]
+                for ax in range(-len(s), len(s)):
+                    for fn, data in (('cumsum', big), ('sum', big), ('cumprod', small), ('prod', small)):
+                        for dt in ('i32', 'i64', 'f64'):
+                            a = np.array(data, dtype=NPT[et]).reshape(s)
+                            with np.errstate(all='ignore'):
+                                r = {'cumsum': np.cumsum, 'cumprod': np.cumprod, 'sum': np.sum, 'prod': np.prod}[fn](a, axis=ax, dtype=NPD[dt])
+                            r = np.asarray(r)
+                            if dt == 'i32' and fn in ('cumprod', 'prod') and np.abs(np.asarray({'cumprod': np.cumprod, 'prod': np.prod}[fn](a.astype(np.float64), axis=ax))).max() >= 2 ** 31:
+                                continue       # would overflow the requested dtype itself: not a statement about the fold
+                            api = ('view', 'array')[(variant + ax + len(fn)) % 2]
+                            vals = [int(x) for x in r.reshape(-1)]
+                            yield Case('narrow et=%s fn=%s api=%s dtype=%s shape=%s axis=%d data=%s' % (et, fn, api, dt, fmt(s), ax, fmt(data)), 'h_c08e',
+                                       oracle=ans(list(r.shape), vals), model=False, nontrivial=s[ax] > 1,
+                                       tags=['narrow-element-type', 'fn=' + fn, 'et=' + et, 'dtype=' + dt])
+
+
 def gen(tier, rng):
     yield from gen_witnesses()
+    yield from gen_narrow(tier, rng)
     k = 0
     for c in _gen_f31(tier, rng):
         yield c
